@@ -80,8 +80,9 @@ def build(p):
     to_extrapolate = [A + '__' + K['state'], S + '__' + K['state']]
     if K['third_basetype']:
         l_head = '{%s}/{%s:l}/{shelf}/{item}/{%s}' % (K['project'], K['type'], K['version'])
-        sid_templates += [('lib__file', l_head + '/{%s:scenes}' % leaf), ('lib__' + K['version'], l_head), ('lib', '{%s}/{%s:l}' % (K['project'], K['type']))]
-        to_extrapolate.append('lib__' + K['version'])
+        sid_templates += [('item__file', l_head + '/{%s:scenes}' % leaf), ('item__' + K['version'], l_head),
+                          ('item__item', '{%s}/{%s:l}/{shelf}/{item}' % (K['project'], K['type'])), ('item', '{%s}/{%s:l}' % (K['project'], K['type']))]
+        to_extrapolate.append('item__item')      # the keytype also occurs in the basetype name (like shot__shot)
     sid_templates.append((P, '{%s}' % K['project']))
     st_sid = [s for s, _ in K['states']]
     kp_common = [
@@ -105,7 +106,7 @@ def build(p):
                   ('{%s:%s}' % (K['type'], K['code_s']), '{%s:%s}' % (K['type'], closed([K['code_s']])))]
     if K['third_basetype']:
         everywhere.append(('{%s:l}' % K['type'], '{%s:%s}' % (K['type'], closed(['l']))))
-        key_patterns.append(('lib__', [('{shelf}', '{shelf:%s}' % closed(['tools', 'hdri']))]))
+        key_patterns.append(('item__', [('{shelf}', '{shelf:%s}' % closed(['tools', 'hdri']))]))
     key_patterns.append(('', everywhere))      # the demo uses 't' (a letter every type name contains); '' matches every type name
     key_types = [(A, [K['project'], K['type'], K['assettype'], K['asset'], K['task'], K['version'], K['state'], leaf]),
                  (S, [K['project'], K['type']] + ([ep[0]] if ep else []) + [K['sequence'], K['shot'], K['task'], K['version'], K['state'], K['node'], leaf]),
@@ -113,9 +114,9 @@ def build(p):
     leaf_keys = [(A, leaf), (S, leaf), (P, leaf)]
     narrowing = [(A, '%s=~%s' % (K['type'], K['code_a'])), (S, '%s=~%s' % (K['type'], K['code_s']))]
     if K['third_basetype']:
-        key_types.append(('lib', [K['project'], K['type'], 'shelf', 'item', K['version'], leaf]))
-        leaf_keys.append(('lib', leaf))
-        narrowing.append(('lib', '%s=~l' % K['type']))
+        key_types.append(('item', [K['project'], K['type'], 'shelf', 'item', K['version'], leaf]))
+        leaf_keys.append(('item', leaf))
+        narrowing.append(('item', '%s=~l' % K['type']))
     # paths
     R = '{@project_root}'
     a_dir = R + '/{%s}/%s/{%s:%s}/{%s}/{%s}/{%s}/{%s}' % (K['project'], K['prod'], K['type'], K['assets'], K['assettype'], K['asset'], K['task'], K['version'])
@@ -149,8 +150,8 @@ def build(p):
     path_templates.append((S, s_base))
     if K['third_basetype']:
         l_dir = R + '/{%s}/%s/{%s:LIBRARY}/{shelf}/{item}/{%s}' % (K['project'], K['prod'], K['type'], K['version'])
-        path_templates += [('lib__file', l_dir + '/{item}%s{%s}.{%s:scenes}' % (sep, K['version'], leaf)), ('lib__' + K['version'], l_dir),
-                           ('lib__item', l_dir.rsplit('/', 1)[0]), ('lib__shelf', l_dir.rsplit('/', 2)[0]), ('lib', l_dir.rsplit('/', 3)[0])]
+        path_templates += [('item__file', l_dir + '/{item}%s{%s}.{%s:scenes}' % (sep, K['version'], leaf)), ('item__' + K['version'], l_dir),
+                           ('item__item', l_dir.rsplit('/', 1)[0]), ('item__shelf', l_dir.rsplit('/', 2)[0]), ('item', l_dir.rsplit('/', 3)[0])]
     path_templates.append((P, R + '/{%s}' % K['project']))
     path_mapping = [(K['project'], [(pp, sp) for sp, pp in K['projects']]),
                     (K['type'], [(K['assets'], K['code_a']), (K['shots'], K['code_s'])] + ([('LIBRARY', 'l')] if K['third_basetype'] else [])),
@@ -211,7 +212,7 @@ def write_package(i, out):
     with open(os.path.join(out, 'spil_data_conf.py'), 'w') as f:
         f.write("from pathlib import Path\n")
         f.write("path_configs = {'local': 'spil_fs_conf', 'server': 'spil_fs_server_conf'%s}\n" % (", 'backup': 'spil_fs_backup_conf'" if b['third_path'] else ''))
-        f.write("default_path_config = 'local'\n_finders = {}\n")
+        f.write("default_path_config = %r\n_finders = {}\n" % ('backup' if b['third_path'] else 'local'))
         f.write('''
 def get_finder_for(search_sid, config=None):
     from spil_sid_conf import projects, asset_types
